@@ -171,6 +171,8 @@ class Engine:
                 elif ev == "reset":
                     s = e.get("s", {})
                     self.cov["scenario:%s/%s" % (s.get("framing", e.get("kind", "-")), s.get("faultKind", "-"))] += 1
+                elif ev == "happy":
+                    self.cov["happy:%s/%d-addresses" % (e.get("res"), len(e.get("resolved", [])))] += 1
                 elif ev == "rt":
                     self.cov["rt:%s/%s/T=%s/%s" % (e.get("phase"), e.get("mode"), "set" if e.get("T") else "none", e.get("res"))] += 1
                 elif ev == "op":
